@@ -73,7 +73,7 @@ def main(argv=None):
     print("%s tier=%s seed=%d evaluations=%d transitions=%d nontrivial=%d capped=%d "
           "violations_raw=%d exhaustive=%s wall=%.1fs -> exit %d"
           % (pid, ctx.tier, seed, ctx.counts['evaluations'], ctx.counts['transitions'],
-             len(ctx.nontrivial_keys), ctx.counts['capped'], ctx.counts['violations_raw'],
+             (len(ctx.nontrivial_keys) + ctx.nontrivial_count), ctx.counts['capped'], ctx.counts['violations_raw'],
              ctx.exhaustive and not ctx.counts['capped'], time.time() - ctx.t0, code))
     return code
 
